@@ -248,6 +248,50 @@ def dangling_stream(args):
     return t3.dangling_stream_case(args[0], args[1], "drain-stream")
 
 
+def regex_case(args):
+    """RunToRegex with several patterns, some with inline flags, unanchored or overlapping: the processes run are those whose
+    name matches one of the patterns (each pattern on its own), plus everything upstream of them -- nothing else"""
+    seed, i = args
+    import re
+    rng = random.Random(seed * 198491347 + i)
+    sp = t3.Spec(maxtasks=rng.randint(1, 3), bufsize=rng.choice([1, 2, 128]))
+    paths = ["g%d.txt" % j for j in range(rng.randint(1, 2))]
+    for p in paths:
+        sp.files[p] = p + "\n"
+    s = sp.src("src", paths)
+    A = sp.proc(t3.Proc("Align_reads", kind="cattok", tok="tA", ins=[("a", [(s, "out")])], outs=[("o", "{i:a}.aligned")]))
+    Q = sp.proc(t3.Proc("QC_trimmed", kind="cattok", tok="tQ", ins=[("a", [(A, "o")])], outs=[("o", "{i:a}.qc")]))
+    R = sp.proc(t3.Proc("qc_raw", kind="cattok", tok="tR", ins=[("a", [(s, "out")])], outs=[("o", "{i:a}.rawqc")]))
+    X = sp.proc(t3.Proc("align_extra", kind="cattok", tok="tX", ins=[("a", [(s, "out")])], outs=[("o", "{i:a}.extra")]))
+    sp.proc(t3.Proc("report", kind="cat", tok="tP", ins=[("x", [(Q, "o")]), ("y", [(R, "o")])], outs=[("o", "{i:x}.report")]))
+    up = {"Align_reads": [], "QC_trimmed": ["Align_reads"], "qc_raw": [], "align_extra": [], "report": ["QC_trimmed", "qc_raw"]}
+    pats = rng.choice([["(?i)^align_r", "^QC_"], ["^QC_", "(?i)^ALIGN_READS$"], ["(?i)^qc_raw$", "^Align"], ["^QC", "^QC_t"], ["raw$"], ["(?i)^QC_T", "^align_"]])
+    matched = {n for n in up if any(re.search(p, n) for p in pats)}
+    want = set()
+    def close(n):
+        if n not in want:
+            want.add(n)
+            for u in up[n]:
+                close(u)
+    for n in matched:
+        close(n)
+    sp.raw("RUNTO X " + " ".join(vlib.hx(p) for p in pats))
+    sc = t3.Scratch()
+    try:
+        sc.plant(sp.files)
+        impl = t3.run_impl(sc, sp, timeout=30)
+        problems = []
+        if impl["rc"] != 0 or not impl["returned"]:
+            problems.append(("unexpected-failure", "RunToRegex(%s) fails: %s" % (pats, impl["stderr"][-200:])))
+        else:
+            ran = {k.split(" ")[0] for k in t3.started_keys(impl["trace"])}
+            if ran != want:
+                problems.append(("runto-closure", "RunToRegex(%s): processes %s executed commands, the upstream closure of the matching processes %s is %s" % (pats, sorted(ran), sorted(matched), sorted(want))))
+        return {"spec": sp.text(), "bufsize": sp.bufsize, "problems": problems, "ntasks": len(want), "rc": impl["rc"], "stderr": impl["stderr"][-200:], "yield": None, "wall": impl["wall"], "kind": "runto-regex-patterns"}
+    finally:
+        sc.close()
+
+
 def run(rep, tier, seed):
     proved = vlib.prove(rep, MODULE, THEOREMS)
     ok, msg = vlib.build_ocaml()
@@ -259,11 +303,12 @@ def run(rep, tier, seed):
     results += t3.run_many(drain_case, [(seed, i) for i in range(n // 4)])
     results += t3.run_many(lockstep_case, [(seed, i) for i in range(n // 5)])
     results += t3.run_many(dangling_stream, [(seed, i) for i in range(n // 5)])
+    results += t3.run_many(regex_case, [(seed, i) for i in range(n // 5)])
     results += t3.run_many(component_command_case, [(seed, i) for i in range(n // 5)])
     t3.report_t3(rep, MODULE, proved, results, "T3 unconnected ports / RunTo")
     rep.cov["evaluations"] = len(results)
     rep.cov["distinct_nontrivial"] = len({r["spec"] for r in results})
-    rep.cov["rule"] = "unconnected: a random workflow in which one in-port loses its connection or one extra parameter port is created and never connected -- must exit non-zero, execute no command, create no file; RunTo: non-tree closures (a diamond whose one branch has a further producer, file or parameter, reachable only through it; five runs each); process names containing regular-expression metacharacters beside names such a pattern would match; random workflows run to 1-2 random target processes by name, by regular expression or by process value, plus FromStr feeders longer than the buffer upstream of the target -- executed tasks and files must be exactly those of the upstream closure as computed by the reference evaluator; drain: a streaming out-port that nobody consumes or whose consumer RunTo cuts off -- the run must complete and leave no FIFO; a dangling file out-port and an unread parameter source together, one of them longer than the buffer after the other has closed -- the run must complete; lock-step: a component emitting a parameter and a file alternately, the parameters unconsumed or cut off by RunTo, more pairs than the buffer holds -- all tasks of the process that is run must execute; component: a CommandToParams component whose command leaves a mark, outside the closure of a RunTo target / in a refused workflow / in a fully wired one -- the mark must appear only in the last; every case distinct"
+    rep.cov["rule"] = "unconnected: a random workflow in which one in-port loses its connection or one extra parameter port is created and never connected -- must exit non-zero, execute no command, create no file; RunToRegex with several literal patterns (inline flags, unanchored, overlapping): exactly the closure of the processes each pattern matches on its own; RunTo: non-tree closures (a diamond whose one branch has a further producer, file or parameter, reachable only through it; five runs each); process names containing regular-expression metacharacters beside names such a pattern would match; random workflows run to 1-2 random target processes by name, by regular expression or by process value, plus FromStr feeders longer than the buffer upstream of the target -- executed tasks and files must be exactly those of the upstream closure as computed by the reference evaluator; drain: a streaming out-port that nobody consumes or whose consumer RunTo cuts off -- the run must complete and leave no FIFO; a dangling file out-port and an unread parameter source together, one of them longer than the buffer after the other has closed -- the run must complete; lock-step: a component emitting a parameter and a file alternately, the parameters unconsumed or cut off by RunTo, more pairs than the buffer holds -- all tasks of the process that is run must execute; component: a CommandToParams component whose command leaves a mark, outside the closure of a RunTo target / in a refused workflow / in a fully wired one -- the mark must appear only in the last; every case distinct"
     rep.cov["samples"] = [results[0]["spec"], results[-1]["spec"]]
     kinds = {}
     for r in results:
